@@ -6,7 +6,7 @@ namespace Yld.C09
 
 /-- once(G) fails, without raising, when G has no answer. -/
 theorem once_fails_when_goal_fails (k : K) (w : World) : onceGen Gen.fail k w = (w, none) := by
-  simp [onceGen, Gen.fail]
+  simp [onceGen, Gen.fail, leaveOnce]
 
 /-- once(G) has G's first answer only: the consumer is run at the first answer and G is not
     resumed, whatever else G could produce. -/
@@ -14,7 +14,7 @@ theorem once_first_answer_only (g : Gen) (k : K) (w : World) :
     onceGen (Gen.seq Gen.succeed g) k w = k w := by
   simp only [onceGen, Gen.seq, Gen.succeed, wrapK]
   cases h : k w with
-  | mk w' s => cases s <;> simp
+  | mk w' s => cases s <;> simp [leaveOnce]
 
 /-- call(G, A1..An) with a compound G (inline or reached through bound variables) is G with
     A1..An appended to its arguments; with an atom G the arguments are exactly A1..An. -/
